@@ -423,8 +423,8 @@ fn cmd_check(id: &str, tier: &str, cases_override: Option<u32>, workers: usize, 
     }
     // 2. generated search
     let cases = cases_override.unwrap_or(match tier {
-        "thorough" => 400_000,
-        _ => 12_000,
+        "thorough" => 1_500_000,
+        _ => 40_000,
     });
     let stop = Arc::new(AtomicBool::new(false));
     let progress = Arc::new(AtomicU64::new(0));
